@@ -229,6 +229,7 @@ class Contract:
         replay=None,
         yield_range=None,
         time_budget=None,
+        prune_timeout_ms=None,
     ):
         self.id = cid
         self.target = target
@@ -258,6 +259,7 @@ class Contract:
         self.replay = replay
         self.yield_range = yield_range
         self.time_budget = time_budget
+        self.prune_timeout_ms = prune_timeout_ms
 
 
 class Lemma:
